@@ -44,6 +44,80 @@ def out_records():
     return [r for r in E.SEND if r.route == "app" and r.module != "axolotl"]
 
 
+# ---- message payloads that carry a sender key next to their content (what a group member receives when the sender answers
+# its retry request): the application must still get exactly one entity with the content
+def _payload_with_sender_key(kind, text):
+    from yowsup.layers.protocol_messages.proto.e2e_pb2 import Message
+    m = Message()
+    m.sender_key_distribution_message.group_id = "4915100000021-1500000001@g.us"
+    m.sender_key_distribution_message.axolotl_sender_key_distribution_message = b"\x33" * 40
+    if kind == "text":
+        m.conversation = text
+    elif kind == "link":
+        m.extended_text_message.text = text
+        m.extended_text_message.matched_text = "http://example.org"
+    elif kind == "location":
+        m.location_message.degrees_latitude = 1.5
+        m.location_message.degrees_longitude = 2.5
+        m.location_message.name = text
+    return m.SerializeToString()
+
+
+SK_KINDS = {"text": ("text", None, "basic"), "link": ("text", None, "basic"), "location": ("media", "location", "media")}
+
+
+def sender_key_shape(kind):
+    mtype, mediatype, module = SK_KINDS[kind]
+    blob = S.Kind("PAYLOAD_SK_" + kind, S.TEXT.strategy.map(lambda t, _k=kind: json_text_payload(_k, t)), is_bytes=True)
+    attrs = {"from": S.GJID, "participant": S.JID, "id": S.ID, "t": S.TS, "type": S.CONST(mtype), "notify": S.OPT(S.TEXT)}
+    pattrs = {"mediatype": S.CONST(mediatype)} if mediatype else {}
+    return S.N("message", attrs, children=[S.N("proto", pattrs, data=blob)])
+
+
+def json_text_payload(kind, text):
+    return _payload_with_sender_key(kind, text)
+
+
+def run_sender_key_case(case, out):
+    kind = case["kind"]
+    mtype, mediatype, module = SK_KINDS[kind]
+    tree = G.materialize(case["tree"])
+    configs = case.get("configs") or ALL_CONFIGS
+    evals = nt = 0
+    out.label("in", "sender_key_with_content:" + kind)
+    for cfg in configs:
+        flags, axolotl = cfg[:4], bool(cfg[4])
+        on = True if module == "basic" else flags[FLAG_NAMES.index(module)]
+        single = dict(case, configs=[cfg])
+        rig = ProtoRig(flags, axolotl)
+        try:
+            try:
+                rig.inject(T.to_node(tree))
+            except Exception as e:
+                out.fail("up", "up:sender_key_with_content:%s:raises:%s" % (kind, type(e).__name__), {"error": repr(e)[:300], "config": cfg}, case=single)
+                return out
+            got = list(rig.top.got)
+        finally:
+            rig.close()
+        if on and len(got) != 1:
+            out.fail("up", "up:sender_key_with_content:%s:%s" % (kind, "not_delivered" if not got else "delivered_%d_times" % len(got)),
+                     {"config": cfg}, case=single)
+            return out
+        if not on and got:
+            out.fail("up", "up:sender_key_with_content:%s:delivered_although_module_off" % kind, {"config": cfg}, case=single)
+            return out
+        if on:
+            e = got[0]
+            if e.getId() != tree[1]["id"] or e.getFrom() != tree[1]["from"] or e.getParticipant() != tree[1]["participant"]:
+                out.fail("up", "up:sender_key_with_content:%s:meta_differs" % kind, {"config": cfg}, case=single)
+                return out
+        evals += 1
+        nt += 1
+    out.evals = max(1, evals)
+    out.nontrivial_n = nt
+    return out
+
+
 def module_on(rec, cfg):
     if rec.module in FLAG_NAMES:
         return cfg[FLAG_NAMES.index(rec.module)]
@@ -52,6 +126,8 @@ def module_on(rec, cfg):
 
 def run_case(case):
     out = Outcome()
+    if case["sub"] == "in_sender_key":
+        return run_sender_key_case(case, out)
     rec = E.by_name(case["name"])
     cls = rec.load()
     configs = case.get("configs") or ALL_CONFIGS
@@ -154,6 +230,10 @@ def plan(tier):
     for r in out_records():
         strategies.append(("out:" + r.name,
                            S.args_strategy(r.args, r.kwargs).map(lambda ak, _n=r.name: {"sub": "out", "name": _n, "args": ak[0], "kwargs": ak[1]}), n))
+    for kind in SK_KINDS:
+        strategies.append(("in_sender_key:" + kind,
+                           S.shape_strategy(sender_key_shape(kind)).map(lambda t, _k=kind: {"sub": "in_sender_key", "kind": _k,
+                                                                                            "tree": S.tree_to_json(t)}), n))
     return {
         "shards": 16,
         "enumerations": [],
